@@ -35,7 +35,7 @@ class Pool:
             p = subprocess.Popen([common.PY, WORKER, '--server'], stdin=subprocess.PIPE, stdout=subprocess.PIPE,
                                  stderr=subprocess.PIPE, text=True, env=self.env)
             try:
-                o, e = p.communicate(data, timeout=timeout)
+                o, e = common.patient_communicate(p, data, timeout)
             except subprocess.TimeoutExpired:
                 p.kill()
                 o, e = '', 'timeout'
@@ -58,7 +58,7 @@ class Pool:
     def once(self, h, call, variant='cache', timeout=120, pc=None):
         """the same single call in a really fresh interpreter (no fork server involved); `pc` = the parse call that
         governs the tree a stringify call writes out"""
-        p = subprocess.run([common.PY, WORKER, '--once'], input=json.dumps({'h': h, 'call': call, 'variant': variant, 'pc': pc}),
+        p = common.patient_run([common.PY, WORKER, '--once'], input=json.dumps({'h': h, 'call': call, 'variant': variant, 'pc': pc}),
                            stdout=subprocess.PIPE, stderr=subprocess.PIPE, text=True, env=self.env, timeout=timeout)
         if p.returncode != 0:
             raise RuntimeError('fresh interpreter failed: ' + p.stderr[-800:])
